@@ -146,6 +146,8 @@ impl PartialOrd for Decimal {
 impl Uint128 {
     pub fn new(u: u128) -> (r: Uint128) ensures r.u == u { Uint128 { u } }
     pub fn zero() -> (r: Uint128) ensures r.u == 0 { Uint128 { u: 0 } }
+    #[verifier::external_body]
+    pub fn to_string(&self) -> (r: String) { String::new() }
     pub fn u128(&self) -> (r: u128) ensures r == self.u { self.u }
     // Uint128::mul_floor(Decimal) = floor(self * atomics / 10^18)
     #[verifier::external_body]
